@@ -3,8 +3,10 @@ import copy
 import inspect
 import itertools
 import json
+import math
 import os
 import random
+import struct
 from fractions import Fraction
 
 RULE = ('case = (numeric table X on a dyadic grid, integer targets y, how the tree is fitted: DecisionTreeRegressor(max_depth, '
@@ -18,7 +20,13 @@ RULE = ('case = (numeric table X on a dyadic grid, integer targets y, how the tr
         'on two-digit-sized contexts and on values that float32 cannot represent (0.1, 19.99); the renumber stream feeds the '
         'converter hand-renumbered arrays of a fitted tree (level order, right-child-first) and judges against the descent on '
         'the arrays; every non-malformed case also runs aliasing histories: product/quotient mutated by +=, *=, lattice.add, '
-        'then the original re-asked, and vice versa; the returned prediction array mutated in place then re-asked')
+        'then the original re-asked, and vice versa; the returned prediction array mutated in place then re-asked; the '
+        'eps-scale stream is about the number grid: thresholds at |t| = 2^23, 2^24, 2^31, 2^53, 1e15, 1e300, 1e-12, denormals and '
+        '0, as fitted trees (float32-exact training values, adjacent float32 numbers) and as hand-written arrays, with objects '
+        'exactly on a threshold and one float64 ulp above / below it, in-bag and out-of-bag (`probe`: three such objects are '
+        'added to the context for every split of the fitted tree; `train`: the tree is grown on a subset of the rows), and '
+        'tables mixing a column in the millions with a column in thousandths; the ulp-probe stream adds the same probes to '
+        'ordinary random tables')
 EXHAUSTIVE = {
     'quick': 'all one-column tables with 1..3 rows over the grid {0,1,2} x all targets over {0,1,3}, unbounded depth (819 trees)',
     'thorough': 'quick scope + all 2-column tables with 1..3 rows over {0,1} x all targets over {0,1,3} at depths 1 and None, '
@@ -29,11 +37,22 @@ EXPLANATION = ('the property is judged on the implementation\'s own outputs: DL.
                'array set and every row, that the model\'s traced generator records are the row\'s root-to-leaf path and the sum '
                'of deltas is the leaf value (dl_predict_eq_tree, full: worklist invariant + parse inversion); the run compares the model with the implementation on: parsed decisions, concept '
                'extents, lattice top, generator records, predictions, scaled predictions; and feeds the implementation\'s own '
-               'generator records to the Lean checker `checkRecs` (records containing row g == nodes on g\'s path).')
+               'generator records to the Lean checker `checkRecs` (records containing row g == nodes on g\'s path). '
+               'The left end of a right child\'s interval is the successor map `nxt` of the theorems: the harness reads the '
+               'converter\'s default `eps`; `None` (the repaired code) = `np.nextafter(thr, inf)`, a number (the code before '
+               'the repair of D23) = `thr + eps` in float64; either way every threshold\'s successor travels to the model as an '
+               'exact rational, interval ends of generators are compared EXACTLY, and `wellFormed` (thr < nxt thr; no value of '
+               'the context strictly between) is evaluated by the driver on every case. There is no public way to pass an '
+               'explicit eps (`from_decision_tree` calls the private parser without it), so that mode is covered by the '
+               'theorem `dl_predict_eq_tree_eps` only.')
 ASSUMPTIONS = [
     'cells are single numbers (IntervalPS stores them as (x, x)); data and thresholds lie on a dyadic grid so float comparisons '
     'are exact; node values are the exact rational values of sklearn\'s float64 means',
-    'the thresholds of a fitted tree separate the context\'s values by more than eps = 1e-9 (decidable `wellFormed`, checked per case)',
+    'number grid (decidable `wellFormed`, checked per case; it holds for every float64 table when nxt = nextafter): each '
+    'threshold is below its successor and no value of the context lies strictly between the two',
+    'sklearn\'s own `predict` casts the data to float32: where a cell is not float32-representable (the ulp probes, hand-written '
+    'arrays) the tree\'s prediction is the float64 descent `x[feature] <= threshold` on the fitted arrays; on every row whose '
+    'cells are float32-exact that descent is also compared with sklearn\'s `predict`',
     'every node of a fitted tree is reached by at least one row of the context (decidable `fitted`, checked per case)',
     'iteration over equal Python sets built the same way yields the same order (the root\'s duplicate generator records collapse '
     'under set())',
@@ -41,7 +60,9 @@ ASSUMPTIONS = [
 ]
 TRUSTED = ['sklearn fitting (the fitted arrays are input data); sklearn `predict` is compared with the model\'s standard descent '
            'on every case', 'numpy float64 arithmetic of the deltas and of the final sum (tolerance 1e-9 relative)',
-           'POSet/Lattice top and bottom detection is modelled by its specification (unique maximal / minimal extent)']
+           'POSet/Lattice top and bottom detection is modelled by its specification (unique maximal / minimal extent)',
+           '`np.nextafter(t, inf)` is the IEEE-754 successor of the float64 `t` (cross-checked on every threshold against '
+           '`math.nextafter` and against the bit pattern + 1)']
 CHUNK = 60
 REQUESTS_NEED_IMPL = True
 
@@ -63,8 +84,15 @@ def F(x):
     return Fraction(*float(x).as_integer_ratio())
 
 
-def _mk_case(stream, X, y, kind='tree', depth=None, seed=0, est=0, mut=None, params=None, renum=None):
+def _mk_case(stream, X, y, kind='tree', depth=None, seed=0, est=0, mut=None, params=None, renum=None, train=None,
+             probe=None, arrays=None):
     c = dict(stream=stream, X=X, y=y, kind=kind, depth=depth, seed=seed, est=est)
+    if train is not None:
+        c['train'] = train            # rows the tree is grown on (the other rows of the context are out-of-bag objects)
+    if probe:
+        c['probe'] = probe            # 'ulp': for every split add objects on the threshold and one float64 ulp above / below
+    if arrays is not None:
+        c['arrays'] = arrays          # kind == 'arrays': a hand-written tree in sklearn's array form
     if mut is not None:
         c['mut'] = mut
     if params:
@@ -79,32 +107,125 @@ def _mk_case(stream, X, y, kind='tree', depth=None, seed=0, est=0, mut=None, par
 B_SUB, THR_SUB, X_SUB = 0.0020000000949949026, 0.0010000000474974513, 0.0010000003967434168
 
 
-def _eps_scale_cases():
-    """Known finding D23 (the converter's eps = 1e-9 is ABSOLUTE): deterministic tables on which an object of the context
-    lies on / within eps above a threshold.  (a) |threshold| >= 2**23, where thr + 1e-9 == thr in float64, so an object
-    equal to the threshold matches BOTH child premises; (b) an object in (thr, thr + eps) matches NEITHER premise.
-    Such objects arise from sklearn's float32 cast or as out-of-bag objects of a bootstrapped forest member.
-    Outside the Lean model's `wellFormed` hypothesis: judged by the property alone, oracle = tree.predict."""
+def succ(t):
+    """The IEEE-754 successor of the float64 `t` (towards +inf), without numpy."""
+    t = float(t)
+    if t == 0.0:
+        return 5e-324
+    bits = struct.unpack('<q', struct.pack('<d', t))[0]
+    return struct.unpack('<d', struct.pack('<q', bits + 1 if t > 0 else bits - 1))[0]
+
+
+def pred_(t):
+    return -succ(-float(t))
+
+
+def _f32(v):
+    import numpy as np
+    return float(np.float32(v))
+
+
+def _f32_next(v, k=1):
+    import numpy as np
+    x = np.float32(v)
+    for _ in range(k):
+        x = np.nextafter(x, np.float32(np.inf))
+    return float(x)
+
+
+def _stump(thr, vals=(2.0, 1.0, 5.0)):
+    return dict(left=[1, -1, -1], right=[2, -1, -1], feature=[0, -2, -2], threshold=[float(thr), -2.0, -2.0],
+                value=[float(v) for v in vals])
+
+
+def _around(t):
+    """Objects on the threshold, one and two ulps around it, and clearly on either side."""
+    t = float(t)
+    far = max(abs(t) * 0.5, 1.0) if abs(t) < 1e300 else 5e299
+    return [t, succ(t), pred_(t), succ(succ(t)), pred_(pred_(t)), t - far, t + far]
+
+
+# |threshold| at which an absolute step of 1e-9 vanishes (>= 2**23) or overshoots (tiny scales, denormals), and plain ones
+SCALES = (1.0, 0.1, 2.0 ** 23, 2.0 ** 24, 2.0 ** 24 + 2, 2.0 ** 31, 2.0 ** 53, 1e15, 1e300, 1e308, 1e-12,
+          3e-9, 2.2250738585072014e-308, 2.5e-310, 5e-324, 0.0)
+
+
+def _eps_scale_cases(rng):
+    """The number grid.  D23 (repaired): the right child of a split used to start at `thr + 1e-9` - an ABSOLUTE step.
+    (a) for |thr| >= 2**23, thr + 1e-9 == thr in float64: an object equal to the threshold matched BOTH child premises;
+    (b) an object in (thr, thr + 1e-9) matched NEITHER.  Such objects arise from sklearn's float32 cast, as out-of-bag
+    objects of a bootstrapped forest member, or simply on small scales.  All cases are judged like any other case."""
     big = [[16777216.0], [16777220.0], [16777218.0]]
     sub = [[0.0], [B_SUB], [X_SUB]]
-    yield _mk_case('eps-scale', [[16777217.0], [16777218.0]], [0.0, 1.0])                          # D23a
-    yield _mk_case('eps-scale', sub, [0.0, 1.0, 1.0], kind='forest', seed=0, est=1)                # D23b
     for sd in (0, 1):
         yield _mk_case('eps-scale', big, [0.0, 4.0, 4.0], kind='forest', seed=sd, est=1)
         yield _mk_case('eps-scale', big + [[0.0]], [0.0, 4.0, 4.0, -8.0], kind='forest', seed=sd, est=1)
         yield _mk_case('eps-scale', sub + [[1.0]], [0.0, 1.0, 1.0, 5.0], kind='forest', seed=sd, est=1)
     yield _mk_case('eps-scale', sub, [0.0, 1.0, 1.0], kind='forest', seed=1, est=1)
     yield _mk_case('eps-scale', [[33554433.0], [33554436.0]], [0.0, 1.0])
+    # (A) hand-written arrays: a stump at every scale and sign, objects on / around the threshold (all of them count as
+    #     rows of the context the tree is "fitted" on: every node is reached)
+    for t0 in SCALES:
+        for t in ((t0, -t0) if t0 else (0.0,)):
+            X = [[v] for v in _around(t)] + ([[-0.0]] if t == 0.0 else [])
+            yield _mk_case('eps-scale', X, [0.0] * len(X), kind='arrays', arrays=_stump(t))
+    # (B) hand-written arrays: two splits on one column whose thresholds are NEIGHBOURS on the float64 grid (the node
+    #     between them holds exactly one number: its accumulated premise collapses to a single value), and two splits on
+    #     two columns of very different scale
+    for t0 in (1.0, 2.0 ** 24, 1e15, 1e300, 1e-12, 5e-324, -2.0 ** 31, -1e-12, 0.0):
+        t1, t2 = pred_(t0), t0
+        arr = dict(left=[1, 2, -1, -1, -1], right=[4, 3, -1, -1, -1], feature=[0, 0, -2, -2, -2],
+                   threshold=[t2, t1, -2.0, -2.0, -2.0], value=[3.0, 2.0, 0.0, 4.0, 8.0])
+        X = [[v] for v in (t1, t2, succ(t2), pred_(t1), succ(succ(t2)))]
+        yield _mk_case('eps-scale', X, [0.0] * len(X), kind='arrays', arrays=arr)
+    for ta, tb in ((2.0 ** 24, 2.0 ** -10), (3000000.0, 0.003), (1e15, 1e-12), (-1e300, 5e-324), (2.0 ** 31, 0.0)):
+        arr = dict(left=[1, 2, -1, -1, 5, -1, -1], right=[4, 3, -1, -1, 6, -1, -1], feature=[0, 1, -2, -2, 1, -2, -2],
+                   threshold=[ta, tb, -2.0, -2.0, succ(tb), -2.0, -2.0], value=[3.0, 2.0, 0.0, 4.0, 8.0, 6.0, 10.0])
+        X = [[a, b] for a in (ta, succ(ta), pred_(ta)) for b in (tb, succ(tb), pred_(tb), succ(succ(tb)))]
+        yield _mk_case('eps-scale', X, [0.0] * len(X), kind='arrays', arrays=arr)
+    # (C) fitted trees whose training values are float32-exact neighbours (k float32 steps apart) at every scale sklearn
+    #     can fit (float32 range; gaps above its absolute 1e-7 feature threshold), with ulp probes: the probes are
+    #     out-of-bag objects on the threshold and one float64 ulp around it; whole tree and members of a forest
+    for t0 in (1.0, 0.1, 2.0 ** 23, 2.0 ** 24, 2.0 ** 31, 1e15, 3e37, 0.001, 3e-7):
+        for sign in (1.0, -1.0):
+            for k in (1, 3):
+                lo = _f32(t0)
+                mid, hi = _f32_next(lo, k), _f32_next(lo, 2 * k)
+                X = [[sign * lo], [sign * mid], [sign * hi], [sign * lo]]
+                y = [0.0, 4.0, 1.0, 2.0]
+                yield _mk_case('eps-scale', X, y, probe='ulp')
+                if k == 1:
+                    yield _mk_case('eps-scale', X, y, train=[0, 1, 3], probe='ulp')
+                    yield _mk_case('eps-scale', X, y, kind='forest', seed=int(t0) % 7, est=1, probe='ulp')
+    # (D) mixed scales in one table: a column in the millions and a column in thousandths (both float32-exact), a target
+    #     that needs both, unbounded depth; whole table, a training subset, forest members
+    for it in range(12):
+        n = rng.randint(6, 12)
+        X = [[float(rng.randrange(1, 16)) * 2.0 ** 20 + float(rng.randrange(4)), float(rng.randrange(1, 9)) * 2.0 ** -10]
+             for _ in range(n)]
+        a, b = sorted(r[0] for r in X)[n // 2], sorted(r[1] for r in X)[n // 2]
+        y = [4.0 * (r[0] > a) + 1.0 * (r[1] > b) + (2.0 if it % 3 == 0 and r[0] > a and r[1] > b else 0.0) for r in X]
+        yield _mk_case('eps-scale', X, y, seed=it, probe='ulp')
+        yield _mk_case('eps-scale', X, y, seed=it, train=sorted(rng.sample(range(n), n - 2)), probe='ulp')
+        if it % 2 == 0:
+            for e in range(3):
+                yield _mk_case('eps-scale', X, y, kind='forest', seed=it, est=e, probe='ulp')
+
+
+def _code_succ(thr, eps):
+    """What the converter puts at the left end of the right child's interval, as a float."""
+    return succ(thr) if eps is None else float(thr) + eps
 
 
 def _abs_eps_cause(c, io):
-    """Does some object of the context meet, on its own root-to-leaf path, a threshold for which the two child premises
-    `x <= thr` and `thr + eps <= x` (float arithmetic, as the converter evaluates them) are not complementary?"""
+    """(Only for code whose default eps is a NUMBER.)  Does some object of the context meet, on its own root-to-leaf
+    path, a threshold for which the two child premises `x <= thr` and `thr + eps <= x` (float arithmetic, as the converter
+    evaluates them) are not complementary?"""
     a = io.get('arrays')
-    if not a or 'eps' not in io:
+    if not a or io.get('eps') is None:
         return False
     eps = io['eps']
-    for x in c['X']:
+    for x in io.get('X', c['X']):
         i = 0
         while 0 <= i < len(a['left']) and a['left'][i] != -1:
             f, thr = a['feature'][i], a['threshold'][i]
@@ -190,7 +311,7 @@ def gen(tier, seed, boost=False):
         for xs in itertools.product((0, 1, 2), repeat=4):
             for ys in itertools.product((0, 1, 3), repeat=4):
                 yield _mk_case('exhaustive-4rows', [[float(v)] for v in xs], [float(v) for v in ys])
-    yield from _eps_scale_cases()
+    yield from _eps_scale_cases(random.Random(seed * 104729 + 23))
     yield from _growth_cases(random.Random(seed * 7919 + 20), tier, boost)
     # seeded random larger cases
     nctx = 150 if tier == 'quick' else 1500
@@ -211,6 +332,11 @@ def gen(tier, seed, boost=False):
                 r[1] = r[0]                                          # duplicate columns
         for d in DEPTHS:
             yield _mk_case('random', X, y, depth=d, seed=rng.randint(0, 10 ** 6))
+        if it % 5 == 2:
+            # ordinary tables with out-of-bag objects on every threshold and one float64 ulp around it
+            yield _mk_case('ulp-probe', X, y, depth=rng.choice(DEPTHS), seed=rng.randint(0, 10 ** 6), probe='ulp')
+            yield _mk_case('ulp-probe', X, y, kind='forest', depth=None, seed=rng.randint(0, 10 ** 6), est=it % 3,
+                           probe='ulp')
         if it % 3 == 0:
             s, d = rng.randint(0, 10 ** 6), rng.choice(DEPTHS)
             for e in range(3):
@@ -241,20 +367,47 @@ def _fit(c):
     warnings.simplefilter('ignore')
     X = np.array(c['X'], dtype=float)
     y = np.array(c['y'], dtype=float)
+    if c['kind'] == 'arrays':
+        return X, y, _fake_tree(c['arrays'])
+    # the tree is grown on the rows `train` (default: all); the context always holds every row
+    Xt, yt = (X, y) if c.get('train') is None else (X[c['train']], y[c['train']])
     pr = dict(c.get('params') or {})
     if 'max_depth' in pr:
         pr.pop('max_depth')
     if c['kind'] == 'forest':
         rf = RandomForestRegressor(n_estimators=3, bootstrap=True, max_depth=c['depth'], random_state=c['seed'], **pr)
-        rf.fit(X, y)
+        rf.fit(Xt, yt)
         return X, y, rf.estimators_[c['est']]
     if c['kind'] == 'gboost':
         gb = GradientBoostingRegressor(n_estimators=2, max_depth=c['depth'], random_state=c['seed'], **pr)
-        gb.fit(X, y)
+        gb.fit(Xt, yt)
         return X, y, gb.estimators_.flatten()[c['est']]
     if c['kind'] == 'extra':
-        return X, y, ExtraTreeRegressor(max_depth=c['depth'], random_state=c['seed'], **pr).fit(X, y)
-    return X, y, DecisionTreeRegressor(max_depth=c['depth'], random_state=c['seed'], **pr).fit(X, y)
+        return X, y, ExtraTreeRegressor(max_depth=c['depth'], random_state=c['seed'], **pr).fit(Xt, yt)
+    return X, y, DecisionTreeRegressor(max_depth=c['depth'], random_state=c['seed'], **pr).fit(Xt, yt)
+
+
+def _probes(arr, X, limit=6):
+    """Out-of-bag objects for the first `limit` splits of the tree: a row of the context that reaches the split, with the
+    split feature replaced by the threshold itself, by its float64 successor and by its float64 predecessor."""
+    rows = []
+    for i, l in enumerate(arr['left']):
+        if l == -1 or len(rows) >= 3 * limit:
+            continue
+        f, thr = arr['feature'][i], arr['threshold'][i]
+        base = None
+        for x in X:
+            j = 0
+            while arr['left'][j] != -1 and j != i:
+                j = arr['left'][j] if float(x[arr['feature'][j]]) <= arr['threshold'][j] else arr['right'][j]
+            if j == i:
+                base = list(x)
+                break
+        if base is None:
+            continue
+        for v in (thr, succ(thr), pred_(thr)):
+            rows.append([float(w) for w in base[:f]] + [float(v)] + [float(w) for w in base[f + 1:]])
+    return rows
 
 
 def _renumber(arr, how):
@@ -367,18 +520,42 @@ def _canon_decisions(D):
 
 
 def eps_of_code():
+    """The converter's default `eps`: `None` = the right child starts at `np.nextafter(thr, inf)` (the code after the repair
+    of D23), a number = it starts at `thr + eps` (the code before it)."""
     from fcapy.ml.decision_lattice import DecisionLatticePredictor
-    return float(inspect.signature(DecisionLatticePredictor._parse_dtsklearn_to_direct_drules).parameters['eps'].default)
+    d = inspect.signature(DecisionLatticePredictor._parse_dtsklearn_to_direct_drules).parameters['eps'].default
+    return None if d is None else float(d)
+
+
+def _f32_exact(row):
+    import numpy as np
+    with np.errstate(all='ignore'):
+        return all(float(np.float32(v)) == float(v) for v in row)
 
 
 def impl(c):
     from fcapy.mvcontext import MVContext, pattern_structure as PS
     from fcapy.ml.decision_lattice import DecisionLatticeRegressor
+    import numpy as np
     X, y, tree = _fit(c)
     m = X.shape[1]
-    arr = _arrays(tree)
+    arr = copy.deepcopy(c['arrays']) if c['kind'] == 'arrays' else _arrays(tree)
     out = dict(eps=eps_of_code())
-    if c.get('mut'):
+    if c.get('probe'):
+        extra = _probes(arr, X.tolist())
+        if extra:
+            X = np.vstack([X, np.array(extra, dtype=float)])
+            y = np.concatenate([y, np.zeros(len(extra))])
+    rows = [[float(v) for v in r] for r in X.tolist()]
+    out['X'] = rows                      # the context's rows (the case's rows + probes)
+    if c['kind'] == 'arrays' or c.get('probe') or c.get('train') is not None:
+        # cells need not be float32-representable (sklearn's predict would answer for the rounded number): the tree's
+        # prediction is the float64 descent on its arrays; sklearn's own answer is kept for the float32-exact rows
+        out['tree_pred'] = _walk(arr, rows)
+        if c['kind'] != 'arrays':
+            sk = [float(v) for v in tree.predict(X)]
+            out['sk_rows'] = [[i, sk[i]] for i, r in enumerate(rows) if _f32_exact(r)]
+    elif c.get('mut'):
         arr = _mutate(arr, c['mut'], m)
         if arr is None:
             return dict(skip=True)
@@ -392,8 +569,11 @@ def impl(c):
     else:
         out['tree_pred'] = [float(v) for v in tree.predict(X)]
     out['arrays'] = arr
+    # the successor of every threshold, three ways (numpy = what the code calls; math; bit pattern + 1)
+    ths = sorted({float(t) for t, l in zip(arr['threshold'], arr['left']) if l != -1})
+    out['succ_ok'] = all(float(np.nextafter(t, np.inf)) == succ(t) == math.nextafter(t, math.inf) for t in ths)
     names = [str(j) for j in range(m)]
-    K = MVContext([[float(v) for v in r] for r in X.tolist()], {nm: PS.IntervalPS for nm in names},
+    K = MVContext(rows, {nm: PS.IntervalPS for nm in names},
                   target=[float(v) for v in y], attribute_names=names)
     try:
         D = DecisionLatticeRegressor.from_decision_tree(tree, K)
@@ -468,10 +648,13 @@ def _histories(c, tree, K, X, D):
     import numpy as np
     from sklearn.tree import DecisionTreeRegressor
     from fcapy.ml.decision_lattice import DecisionLatticeRegressor as DLR
-    n = len(c['X'])
+    n = X.shape[0]
     sel = [CONSTS[(n + len(c['X'][0])) % len(CONSTS)], CONSTS[(n + 3 + int(c['y'][0])) % len(CONSTS)]]
     y_alt = np.array([float((3 * i + 1) % 4) for i in range(n)])
-    other_tree = DecisionTreeRegressor(max_depth=2, random_state=0).fit(X, y_alt)
+    try:
+        other_tree = DecisionTreeRegressor(max_depth=2, random_state=0).fit(X, y_alt)
+    except Exception:
+        other_tree = None              # values beyond the float32 range: sklearn cannot fit the auxiliary tree
     obs = []
 
     def conv():
@@ -485,7 +668,7 @@ def _histories(c, tree, K, X, D):
         except Exception:
             return False
     try:
-        O = DLR.from_decision_tree(other_tree, K)
+        O = DLR.from_decision_tree(other_tree, K) if other_tree is not None else None
     except Exception:
         O = None
     for cst in sel:
@@ -544,9 +727,14 @@ def requests(c, io):
     recs = None
     if 'recs' in io and not c.get('mut'):
         recs = [dict(sup=r['sup'], c=r['c'], ext=r['ext']) for r in io['recs']]
+    # the successor table of the model: for every threshold, the left end of the right child's interval as the code
+    # computes it - np.nextafter(thr, inf) (default eps=None) or thr + eps in float64 (numeric default)
+    ths = sorted({float(t) for t in a['threshold']})
+    nxt = [[frac(t), frac(_code_succ(t, io['eps']))] for t in ths if math.isfinite(_code_succ(t, io['eps']))]
+    X = io.get('X', c['X'])
     return [dict(op='C20.run', left=a['left'], right=a['right'], feature=a['feature'],
                  threshold=[frac(v) for v in a['threshold']], value=[frac(v) for v in a['value']],
-                 X=[[frac(v) for v in r] for r in c['X']], m=len(c['X'][0]), eps=frac(io['eps']),
+                 X=[[frac(v) for v in r] for r in X], m=len(c['X'][0]), nxt=nxt,
                  consts=[frac(v) for v in CONSTS], k1=frac(K1), k2=frac(K2), recs=recs)]
 
 
@@ -587,9 +775,10 @@ def _descr_close(a, b):
 
 
 def _num_close(a, b):
-    if a in (float('inf'), float('-inf')) or b in (float('inf'), float('-inf')):
-        return a == b
-    return close(a, b, 1e-12)
+    # interval ends are data values, thresholds and successors of thresholds: no arithmetic happens on them (max / min
+    # only), and the model gets each of them as the exact rational of the float - so they are compared EXACTLY (a
+    # tolerance would hide a successor that is off by a few ulps)
+    return float(a) == float(b)
 
 
 def _gen_close(lean_gen, impl_gen):
@@ -613,8 +802,12 @@ def judge(c, io, rep):
     tp = io['tree_pred']
     if not closev(io['pred'], tp):
         return bad('property', f'DL.predict(K) = {io["pred"]} but tree.predict(X) = {tp}')
-    if c['stream'] == 'eps-scale':
-        return dict(ok=True)        # outside `wellFormed`: only the property itself is judged here
+    for i, v in io.get('sk_rows', []):
+        if not close(v, tp[i]):
+            return bad('correspondence', f'sklearn predict {v} != standard descent on the arrays {tp[i]} for the '
+                                         f'float32-exact row {i} = {io["X"][i]}')
+    if not io.get('succ_ok', True):
+        return bad('harness', 'np.nextafter, math.nextafter and the bit-pattern successor disagree on a threshold')
     for s in io['scaled']:
         if 'err' in s:
             return bad('property', f'scaling by {s["c"]} raised {s["err"]}')
@@ -651,10 +844,13 @@ def judge(c, io, rep):
     if c.get('renum') and not closev(io['tree_pred'], io['sk_pred']):
         return bad('harness', f'renumbering changed the tree: walk {io["tree_pred"]} sklearn {io["sk_pred"]}')
     # ---- Lean checker on the implementation's records ----------------------------------------------------------------
-    if not r['wf'] and (c['kind'] == 'extra' or (c.get('params') or {}).get('splitter') == 'random'):
-        return dict(ok=True)        # a random threshold within eps of a data value: outside the modelled scope, property held
+    if not r['wf'] and io['eps'] is not None:
+        # numeric default eps only (the code before the repair of D23): a threshold within eps of a value of the context,
+        # or with thr + eps == thr, is outside that mode's hypothesis (`wellFormedEps`); the property held on this case
+        return dict(ok=True)
     if not r['wf']:
-        return bad('harness', 'generated case is outside the theorem\'s hypothesis: wellFormed = false for a fitted tree')
+        return bad('harness', 'generated case is outside the theorem\'s hypothesis: wellFormed = false for a fitted tree '
+                              '(in the nextafter mode it holds for every float64 table)')
     if not r.get('fitted'):
         return bad('harness', 'generated case is outside the theorem\'s hypothesis: fitted = false (a node no row reaches)')
     if r['recs_ok'] is not True:
@@ -729,12 +925,14 @@ def _judge_malformed(c, io, r):
 
 def nontrivial(c):
     # at least two distinct targets on two distinct rows => the unbounded tree splits; cheap static proxy
+    if c['kind'] == 'arrays':
+        return len(c['arrays']['left']) >= 3 and len({tuple(r) for r in c['X']}) > 1
     return not c.get('mut') and len(set(c['y'])) > 1 and len({tuple(r) for r in c['X']}) > 1
 
 
 def key(c):
     return [c['X'], c['y'], c['kind'], c['depth'], c['seed'] if (c['kind'] == 'forest' or len(c['X'][0]) > 1) else 0,
-            c['est'], c.get('mut'), c.get('params'), c.get('renum')]
+            c['est'], c.get('mut'), c.get('params'), c.get('renum'), c.get('train'), c.get('probe'), c.get('arrays')]
 
 
 def branch(c, io, rep):
@@ -749,6 +947,19 @@ def branch(c, io, rep):
     a_ = io.get('arrays') or {}
     if a_ and any(l != -1 and l != i + 1 for i, l in enumerate(a_['left'])):
         out.append('non-preorder-numbering')
+    out.append('right-child-from:' + ('nextafter' if io.get('eps') is None else 'thr+eps'))
+    if c.get('probe') or c.get('train') is not None or c['kind'] == 'arrays':
+        out.append('oracle:descent-on-arrays')
+    if a_ and 'X' in io:
+        ths = {(a_['feature'][i], float(a_['threshold'][i])) for i, l in enumerate(a_['left']) if l != -1}
+        if any(0 <= f < len(x) and float(x[f]) == t for x in io['X'] for f, t in ths):
+            out.append('object-on-threshold')
+        if any(0 <= f < len(x) and float(x[f]) == succ(t) for x in io['X'] for f, t in ths):
+            out.append('object-one-ulp-above-threshold')
+        if any(abs(t) >= 2.0 ** 23 for _, t in ths):
+            out.append('threshold>=2^23')
+        if any(abs(t) < 1e-9 for _, t in ths):
+            out.append('threshold<1e-9')
     if io.get('decisions') and any('num' in (d or {}) if isinstance(d, dict) else False
                                    for r in io['decisions'] for _, d in r['gen']):
         out.append('premise-collapsed')
@@ -759,7 +970,10 @@ def signature(c, io, rep, v):
     d = v.get('detail', '')
     if c.get('mut'):
         return f'C20:malformed:{c["mut"]}'
-    if v.get('kind') == 'property' and (('raised' in d and 'err' in io) or 'tree.predict' in d) and _abs_eps_cause(c, io):
+    # the class of D23: only code whose default eps is a NUMBER can fall into it (`_abs_eps_cause` is False otherwise),
+    # so against the repaired code no failure is ever given this signature
+    if io.get('eps') is not None and v.get('kind') == 'property' and (('raised' in d and 'err' in io) or 'tree.predict' in d) \
+            and _abs_eps_cause(c, io):
         return 'C20:absolute-eps'
     if 'raised' in d and 'err' in io:
         return 'C20:exc:' + io['err']
@@ -779,7 +993,19 @@ def shrink(c):
             d = dict(c)
             d['X'] = X[:i] + X[i + 1:]
             d['y'] = y[:i] + y[i + 1:]
+            if c.get('train') is not None:
+                d['train'] = [j if j < i else j - 1 for j in c['train'] if j != i]
+                if not d['train']:
+                    continue
             yield d
+    if c.get('probe'):
+        d = dict(c)
+        d.pop('probe')
+        yield d
+    if c.get('train') is not None:
+        d = dict(c)
+        d.pop('train')
+        yield d
     if m > 1:
         for j in range(m):
             d = dict(c)
